@@ -142,3 +142,89 @@ def graph_fingerprint(font):
     for r in colr.table.BaseGlyphList.BaseGlyphPaintRecord:
         walk(r.Paint)
     return "v1:" + ".".join(str(f) for f in sorted(fmts))
+
+
+# ---------------------------------------------------------------- OT-SVG ------------
+def svg_docs(font):
+    """[(text, first gid, last gid)] from the reloaded binary (fontTools gunzips svgz)"""
+    out = []
+    for d in font["SVG "].docList:
+        data = d.data if hasattr(d, "data") else d[0]
+        s = d.startGlyphID if hasattr(d, "startGlyphID") else d[1]
+        e = d.endGlyphID if hasattr(d, "endGlyphID") else d[2]
+        out.append((data, s, e))
+    return out
+
+
+def _use_scale(el):
+    from vmc.oracles import svg_eval
+
+    best = 1.0
+    for u in el.iter():
+        if svg_eval.ln(u) == "use" and u.get("transform"):
+            a, b, c, d = svg_eval.parse_transform(u.get("transform"))[:4]
+            best = max(best, math.hypot(a, b), math.hypot(c, d))
+    return best
+
+
+def otsvg_checks(prop, glyphs, cfg, font, G=24):
+    from vmc.oracles.svg_eval import SvgPicture
+
+    out = []
+    user = user_affine(cfg)
+    degenerate = abs(aff.det(user)) < 1e-12
+    if "SVG " not in font:
+        if degenerate or all(not g.leaves() for g in glyphs):
+            return [ok(f"{prop}.picture", "no-SVG-degenerate")]
+        return [bad(f"{prop}.svg-present", "no SVG table although sources paint something")]
+    docs = svg_docs(font)
+    pics = {}
+    tot = {"valid": 0, "skipped": 0, "bad": 0}
+    inconcl = 0
+    for g in glyphs:
+        names = shaper.shape(font, g.cps)
+        if len(names) != 1:
+            out.append(bad(f"{prop}.reachable", f"{[hex(c) for c in g.cps]} shapes to {names}"))
+            continue
+        name = names[0]
+        gid = font.getGlyphID(name)
+        adv = font["hmtx"][name][0]
+        cover = [i for i, (_, s, e) in enumerate(docs) if s <= gid <= e]
+        paints = bool(g.leaves()) and not degenerate
+        if not cover:
+            if paints:
+                out.append(bad(f"{prop}.one-document", f"no document covers gid {gid} ({name})"))
+            continue
+        if len(cover) != 1:
+            out.append(bad(f"{prop}.one-document", f"{len(cover)} documents cover gid {gid}"))
+            continue
+        di = cover[0]
+        if di not in pics:
+            pics[di] = SvgPicture(docs[di][0], fg=FG)
+        pic = pics[di]
+        eid = f"glyph{gid}"
+        n_el = sum(1 for e in pic.root.iter() if isinstance(e.tag, str) and e.get("id") == eid)
+        if n_el != 1:
+            if n_el == 0 and not paints:
+                continue
+            out.append(bad(f"{prop}.one-element", f"{n_el} elements with id {eid} in the document covering gid {gid}"))
+            continue
+        delta = 2.0 * _use_scale(pic.ids[eid]) + (cfg.reuse_tolerance if cfg.reuse_tolerance > 0 else 0)
+        stats = compare_glyph(g, cfg, adv, lambda p: pic.at_element(eid, (p[0], -p[1])), delta, G=G)
+        for k in tot:
+            tot[k] += stats[k]
+        inconcl += len(stats["inconclusive_layers"])
+        if stats["bad"]:
+            out.append(bad(f"{prop}.picture", f"glyph {name} gid {gid} {[hex(c) for c in g.cps]}: {stats['bad']} of {stats['valid']} probes differ, worst {stats['worst']}/255, e.g. {stats['first'][:2]}"))
+    if not any(v["status"] == "violation" for v in out):
+        out.append(ok(f"{prop}.picture", None))
+    out[-1]["stats"] = dict(tot, inconclusive_layers=inconcl)
+    return out
+
+
+def svg_fingerprint(font):
+    if "SVG " not in font:
+        return "nosvg"
+    docs = svg_docs(font)
+    uses = sum(d[0].count("<use") for d in docs)
+    return f"docs{len(docs)}-use{min(uses, 3)}-lg{int(any('linearGradient' in d[0] for d in docs))}-rg{int(any('radialGradient' in d[0] for d in docs))}"
